@@ -292,4 +292,137 @@ theorem attr_run (S' : List Step) (a : Step) (hS' : StepsOk ns vs S') (ha : a.ax
 
 end
 
+/-! ## `Path.select` for a path that ends in an attribute step -/
+
+mutual
+  theorem pick_congr_asel (P : Node → Prop) (sel : LNode → Bool) (asel asel' : LNode → AttrList)
+      (h : ∀ m : LNode, P m.node → asel m = asel' m) :
+      ∀ (n : Node) (loc : List Nat), AllNodes P n → pick sel asel n loc = pick sel asel' n loc
+    | .elem t a ks, loc, hn => by
+        simp only [pick, h ⟨loc, .elem t a ks⟩ hn.1]
+        rw [pickList_congr_asel P sel asel asel' h ks loc 0 hn.2]
+    | .leaf e, loc, _ => by simp only [pick]
+  theorem pickList_congr_asel (P : Node → Prop) (sel : LNode → Bool) (asel asel' : LNode → AttrList)
+      (h : ∀ m : LNode, P m.node → asel m = asel' m) :
+      ∀ (ks : List Node) (loc : List Nat) (i : Nat), AllList P ks →
+        pickList sel asel ks loc i = pickList sel asel' ks loc i
+    | [], _, _, _ => by simp [pickList]
+    | k :: ks, loc, i, hk => by
+        simp only [pickList]
+        rw [pick_congr_asel P sel asel asel' h k (loc ++ [i]) hk.1,
+            pickList_congr_asel P sel asel asel' h ks loc (i + 1) hk.2]
+end
+
+/-- `reach` looks at the location of the target only -/
+theorem reach_loc (ns : NsMap) (xvs : XVars) : ∀ (p : LocPath) (c t t' : LNode), t.loc = t'.loc →
+    reach ns xvs p c t = reach ns xvs p c t'
+  | [], c, t, t', h => by simp [reach, h]
+  | s :: rest, c, t, t', h => by
+      simp only [reach]
+      apply List.any_congr rfl
+      intro m
+      exact reach_loc ns xvs rest m t t' h
+
+theorem filter_contains_filter {α : Type} [BEq α] [LawfulBEq α] (l : List α) (f : α → Bool) :
+    l.filter (fun a => (l.filter f).contains a) = l.filter f := by
+  apply List.filter_congr
+  intro a ha
+  cases hf : f a with
+  | true =>
+    have : a ∈ l.filter f := List.mem_filter.mpr ⟨ha, hf⟩
+    simpa using this
+  | false =>
+    have : a ∉ l.filter f := fun h => by simp [List.mem_filter, hf] at h
+    simpa using this
+
+theorem filter_contains_self {α : Type} [BEq α] [LawfulBEq α] (l : List α) :
+    l.filter (fun a => l.contains a) = l := by
+  apply List.filter_eq_self.mpr
+  intro a ha
+  simpa using ha
+
+/-- among the attributes of an element, those in the node set of the attribute test are that
+    node set -/
+theorem filter_attrNodes (t : NodeTest) (ns : NsMap) (tg : QName) (ats : AttrList) (ks : List Node) :
+    ats.filter (fun a => (attrNodes t (.elem tg ats ks) ns).contains a) = attrNodes t (.elem tg ats ks) ns := by
+  cases t <;> simp only [attrNodes] <;>
+    first | exact filter_contains_self ats | exact filter_contains_filter ats _ | simp
+
+section
+variable (ns : NsMap) (vs : Vars)
+
+/-- the steps GenericStrategy works with, for `q/@t` -/
+def attrBase (q : LocPath) : List Step := if q = [] then [dotSlash] else gSteps q false
+
+theorem gSteps_snoc_attr (q : LocPath) (a : Step) (ha : a.axis = .attribute) :
+    gSteps (q ++ [a]) false = attrBase q ++ [a] := by
+  cases q with
+  | nil => simp [gSteps, attrBase, ha]
+  | cons s0 rest =>
+    simp only [attrBase, List.cons_ne_nil, if_false, gSteps, List.cons_append, Bool.false_eq_true]
+    split <;> simp
+
+theorem stepsOk_attrBase (q : LocPath) (hq : q = [] ∨ StepsOk ns vs q) : StepsOk ns vs (attrBase q) := by
+  rcases hq with h | h
+  · subst h
+    simp only [attrBase, if_true]
+    exact ⟨by simp, by simp [dotSlash], by simp [dotSlash, NodeTest.elemWf], by simp [dotSlash], by simp [dotSlash]⟩
+  · have hne : q ≠ [] := by
+      intro h0; have := h.ne; simp [h0] at this
+    simp only [attrBase, hne, if_false]
+    exact stepsOk_gSteps ns vs q h
+
+theorem nodeFor_attrBase (q : LocPath) (n : Node) (h : NodeFor q ns vs n) : NodeFor (attrBase q) ns vs n := by
+  by_cases hq : q = []
+  · subst hq
+    obtain ⟨h1, h2, h3, _⟩ := h
+    exact ⟨h1, h2, h3, by simp [attrBase, dotSlash]⟩
+  · simp only [attrBase, hq, if_false]
+    exact nodeFor_gSteps ns vs q n h
+
+theorem RR_attrBase (q : LocPath) (hq : q = [] ∨ StepsOk ns vs q)
+    (tag : QName) (attrs : AttrList) (kids : List Node) (t : LNode) :
+    RR ns (toXVars vs) (attrBase q) 0 ⟨[], .elem tag attrs kids⟩ t
+      = reach ns (toXVars vs) q ⟨[], .elem tag attrs kids⟩ t := by
+  rcases hq with h | h
+  · subst h
+    simp only [attrBase, if_true, RR, pathAt, List.drop_zero, convAxis, dotSlash, withAxis]
+    rw [reach_self ns (toXVars vs) _ _ (by intro q hq; simp at hq) rfl]
+    simp [hitR, testNode]
+  · have hne : q ≠ [] := by
+      intro h0; have := h.ne; simp [h0] at this
+    simp only [attrBase, hne, if_false]
+    exact RR_gSteps ns vs q h tag attrs kids t
+
+end
+
+/-- the attribute selection reported at a marked node is XPath's node set of the test -/
+theorem aselM_eq (t : NodeTest) (ns : NsMap) (mk : List Nat → Bool) (m : LNode) (hok : nodeOk m.node)
+    (hat : t.isAttrName = true) (hawf : t.wf ns = true) :
+    aselM t ns mk m = if mk m.loc then attrNodes t m.node ns else [] := by
+  have hv := attrTest_toX t ns m.node hok hat hawf
+  unfold aselM
+  generalize t.apply (nodeEvent m.node) ns = v at hv
+  cases v <;> simp [Val.toX] at hv
+  · rw [← hv]; simp [Val.truthy]
+  · rw [← hv]
+    rename_i a
+    cases mk m.loc <;> cases a <;> simp [Val.truthy, attrsOf]
+
+/-- what XPath selects of the attributes of node `m` with the single path `q/@t` -/
+theorem attrsSelected_single (ns : NsMap) (xvs : XVars) (q : LocPath) (a : Step) (ha : a.axis = .attribute)
+    (root m : LNode) :
+    attrsSelected [q ++ [a]] ns xvs root m
+      = if reach ns xvs q root m then attrNodes a.test m.node ns else [] := by
+  unfold attrsSelected
+  obtain ⟨loc, node⟩ := m
+  cases node with
+  | leaf e => simp [attrNodes]
+  | elem tg ats ks =>
+    simp only [List.any_cons, List.any_nil, Bool.or_false, List.getLast?_append, List.getLast?_singleton,
+      Option.some_or, ha, beq_self_eq_true, Bool.true_and, List.dropLast_concat]
+    cases hr : reach ns xvs q root ⟨loc, .elem tg ats ks⟩ with
+    | false => simp
+    | true => simpa using filter_attrNodes a.test ns tg ats ks
+
 end Genshi.Path
